@@ -5,7 +5,8 @@ export GOFLAGS=-mod=mod GOPROXY=off GOSUMDB=off GOTOOLCHAIN=local
 cd /verif/seeded
 ids="$@"; [ -z "$ids" ] && ids=$(ls)
 for id in $ids; do
-  P=$(echo "$id" | grep -o 'C[0-9][0-9]' | head -1)
+  P=$(python3 -c "import json;d=json.load(open('/verif/seeded/$id/meta.json')).get('detected_by') or [];print(d[0] if d else '')" 2>/dev/null)
+  [ -z "$P" ] && P=$(echo "$id" | grep -o 'C[0-9][0-9]' | head -1)
   WT=/tmp/seedwt/$id; rm -rf $WT; git -C /repo worktree prune
   git -C /repo worktree add -q $WT HEAD || { echo "$id worktree-failed"; continue; }
   s=$(date +%s)
